@@ -179,11 +179,13 @@ func c16HelperGuard(ci *ssa.Call, recv ssa.Value) bool {
 		}}
 		var trueF formula = fConst{false}
 		for _, r := range returnsOf(callee) {
-			if cst, ok := retVals(r)[0].(*ssa.Const); ok && cst.Value != nil && cst.Value.ExactString() == "true" {
-				trueF = mkOr(trueF, pb.pathCond(callee.Blocks[0], r.Block()))
-			} else if _, ok := retVals(r)[0].(*ssa.Const); !ok {
-				return false
-			}
+			// the result as a formula over the parameter: a constant, or a boolean expression of comparisons (`k == A || k == B`)
+			trueF = mkOr(trueF, mkAnd(pb.pathCond(callee.Blocks[0], r.Block()), pb.valueFormula(retVals(r)[0], 0)))
+		}
+		fbA, fiA := map[string]bool{}, map[string]bool{}
+		atomsOf(trueF, fbA, fiA)
+		if len(fbA) > 0 {
+			continue // the result depends on something other than the kind
 		}
 		ks := kindsWhere(trueF, "k.Kind(param)")
 		if kindsSubset(ks, kPtr, kMap, kSlice, kInterface, kChan, kFunc, kUnsafePointer) {
